@@ -39,9 +39,10 @@ func applyConfig(reg []string, hasHook bool, hook []*Op) {
 		redact.RegisterRedactErrorFn(nil)
 		return
 	}
+	cs := compileOps(hook, 0)
 	redact.RegisterRedactErrorFn(func(err error, p redact.SafePrinter, verb rune) {
 		hookLog = append(hookLog, hookCall{Err: err, Verb: verb})
-		runHookScript(err, p, verb, hook)
+		runHookScript(err, p, verb, cs)
 	})
 }
 
@@ -50,16 +51,16 @@ func resetConfig() { applyConfig(nil, false, nil) }
 // runHookScript is the scripted error hook: writer ops plus two
 // hook-specific ones: "Verb" (emits the verb as safe text) and "ErrText"
 // (emits err.Error() as unsafe text; nil-receiver safe).
-func runHookScript(err error, p redact.SafePrinter, verb rune, ops []*Op) {
+func runHookScript(err error, p redact.SafePrinter, verb rune, ops []*compiled) {
 	t := &printerTarget{p: p, verb: verb}
-	for i, op := range ops {
-		switch op.K {
+	for i, c := range ops {
+		switch c.op.K {
 		case "Verb":
 			p.SafeRune(redact.SafeRune(verb))
 		case "ErrText":
 			p.UnsafeString(safeErrorText(err))
 		default:
-			runWriterOp(t, i, op, 0, nil)
+			runCompiledOp(t, i, c, 0, nil)
 		}
 	}
 }
